@@ -144,6 +144,32 @@ def run(tier, seed):
         rep.add('CONFIG.forwarded', f, where(cp), 'option field `%s` is consumed by the driver%s' %
                 (f, (' (exempt: %s)' % exempt[f]) if f in exempt else ''), okf)
     rep.floor('CONFIG.forwarded', len(setf), 12)
+    # one option, one value: an option arm of the parser stores its own value and nothing derived from it elsewhere
+    rep.rule('CONFIG.one-option-one-field', 'each `arg == "--option"` arm of cl_parser::parse assigns at most one configuration field from '
+             'its value (plus literal flags such as use_mdl = true): no option silently changes a setting that has no option of its own')
+    narms = 0
+    for n_ in astu.walk(cp['body']):
+        if n_['k'] != 'If':
+            continue
+        opts = [x['v'] for x in astu.walk(n_['c']) if x['k'] == 'Str' and str(x['v']).startswith('-')]
+        if not opts or 'arg' not in astu.src(n_['c']):
+            continue
+        derived, flags = [], []
+        for a_ in astu.walk(n_['t']):
+            if a_['k'] in ('Bin', 'OpCall') and a_.get('op') == '=':
+                lhs, rhs = (a_['a'], a_['b']) if a_['k'] == 'Bin' else (a_['args'][0], a_['args'][1])
+                t_ = astu.src(lhs)
+                if not t_.startswith('config_.'):
+                    continue
+                r_ = astu.strip_casts(rhs)
+                literal = r_['k'] in ('Bool', 'Num', 'Str') or (r_['k'] == 'Ref' and r_.get('dk') == 'enum')
+                (flags if literal else derived).append(t_[len('config_.'):])
+        narms += 1
+        rep.add('CONFIG.one-option-one-field', opts[-1], where(cp, n_.get('l')), 'option %s stores %s%s' %
+                ('/'.join(opts), sorted(set(derived)) or 'no value', (' and sets the flags %s' % sorted(set(flags))) if flags else ''),
+                len(set(derived)) <= 1, None if len(set(derived)) <= 1 else 'fields assigned from computed values in one arm: %s' % sorted(set(derived)),
+                nontrivial=bool(derived))
+    rep.floor('CONFIG.one-option-one-field', narms, 15)
     # role check for the generator setters
     roles = {'set_decay_category': 'decay_category', 'set_decay_isotope': 'nuclide', 'set_decay_dbd_level': 'level',
              'set_decay_dbd_mode': 'dbd_mode'}
